@@ -86,6 +86,11 @@ CHECKS = {
          "Every history up to depth 2 (thorough 3) over ~70 operations (rename, move, delete, create folder, alias, set comment; files with and without stored forks, a stored type that contradicts the extension, a Mac-Roman name, folders, ignored entries, a partial upload): the real tree must equal the model's (fork side-files and partial data travel or vanish with their file, mkdir never replaces), each folder's listing must equal the model's visible entries, and every listed complete entry must be addressable by its listed bytes for get-info and download with size/type agreeing across list, info, download reply and disk.",
          "Renames/moves only onto unused names; folder comment side-file after a folder rename and dangling aliases are unspecified.",
          "DESIGN.md §5 C11"),
+ "C20": ("fault_enumeration",
+         "exhaustive enumeration of process-kill points at every file-system step of every update in every short update history on the real stores, with the rest of the history run on the restarted stores; step decomposition validated against strace of the uninstrumented code",
+         "Every history of up to 2 (thorough 3) updates from a 15-update alphabet over board, threaded news, accounts and bans; for every update and every boundary between two file-mutating system calls the goroutine is ended there, the four stores are re-constructed by the real constructors and must load and hold the complete old or complete new value with everything acknowledged intact; the remaining updates then run on the restarted stores (leftover temp files are exercised) and a final restart is compared with the acknowledged state.",
+         "Kill at system-call boundaries only (no torn writes, no power loss); rename atomicity trusted; the shim's step log equals the traced system calls for all 15 update kinds (checked on every run).",
+         "DESIGN.md §5 C20"),
 }
 NOT_YET = "check not built yet in this session (see DESIGN.md §11 build order)"
 
